@@ -5,10 +5,9 @@ from props import gen_props
 
 def run(ctx):
     from props import gen_unbounded
-    gen_unbounded.run_final_construct(ctx)     # unbounded part: FinalConstruct() for any number of exposed ports
-    gen_unbounded.run_portitf(ctx)     # the accessor target that FinalConstruct() checks is the object handed out
-    only = os.environ.get('PYVC_SHAPES')
-    gen_props.run_property(ctx, 'C10', only.split(',') if only else None)
+    # the composition on the shape corpus, then the unbounded function contracts (DESIGN.md 8.6)
+    gen_unbounded.run_with_composition(ctx, 'C10', [('final-construct', gen_unbounded.run_final_construct),
+                                                      ('portitf', gen_unbounded.run_portitf)])
 
 
 def make_replay(ctx, o):
